@@ -188,7 +188,12 @@ pk_run(const unsigned char *data, size_t len, int kind, size_t param, vf_rng *r,
 }
 
 /* 5. PEM decoder: event sequence with names, payload bytes */
-typedef struct { br_pem_decoder_context pc; outcome *o; int nev; size_t npay; } pem_ctx;
+typedef struct { br_pem_decoder_context pc; outcome *o; int nev; size_t npay; uint64_t evh; size_t consumed; } pem_ctx;
+/* 0: decoded data goes to pem_data; 1: br_pem_decoder_setdest(ctx, 0, 0) at each object ("decoded data is simply
+   ignored"); 2: setdest never called (the context comes out of br_pem_decoder_init) */
+static int pem_nodest;
+/* what does not depend on the destination: events, object names, bytes consumed up to each event and in total */
+static uint64_t pem_last_evh; static int pem_last_nev; static size_t pem_last_consumed;
 static void pem_data(void *c, const void *b, size_t l) { pem_ctx *p = c; /* payload is hashed byte-wise so that callback granularity does not matter */
 	const unsigned char *q = b; size_t i; for (i = 0; i < l; i ++) { p->o->h = vf_fnv(q + i, 1, p->o->h ? p->o->h : 0x1234567); } p->npay += l; }
 static void
@@ -202,10 +207,19 @@ pem_push(void *c, const unsigned char *d, size_t l)
 		size_t t = br_pem_decoder_push(&p->pc, d + done, l - done);
 		int ev = br_pem_decoder_event(&p->pc);
 		done += t;
+		p->consumed += t;
 		if (ev) {
+			long c = (long)p->consumed;
 			p->nev ++;
 			oc_int(p->o, ev);
-			if (ev == BR_PEM_BEGIN_OBJ) { const char *n = br_pem_decoder_name(&p->pc); oc_add(p->o, n, strlen(n)); br_pem_decoder_setdest(&p->pc, pem_data, p); }
+			p->evh = vf_fnv(&ev, sizeof ev, p->evh); p->evh = vf_fnv(&c, sizeof c, p->evh);
+			if (ev == BR_PEM_BEGIN_OBJ) {
+				const char *n = br_pem_decoder_name(&p->pc);
+				oc_add(p->o, n, strlen(n));
+				p->evh = vf_fnv(n, strlen(n) + 1, p->evh);
+				if (pem_nodest == 0) br_pem_decoder_setdest(&p->pc, pem_data, p);
+				else if (pem_nodest == 1) br_pem_decoder_setdest(&p->pc, 0, 0);
+			}
 		}
 	}
 }
@@ -220,7 +234,8 @@ pem_run(const unsigned char *data, size_t len, int kind, size_t param, vf_rng *r
 	br_pem_decoder_init(&p.pc);
 	run_partition(pem_push, &p, data, len, kind, param, r);
 	oc_int(o, p.nev); oc_int(o, (long)p.npay);
-	snprintf(o->txt, sizeof o->txt, "events=%d payload=%zu", p.nev, p.npay);
+	pem_last_evh = p.evh; pem_last_nev = p.nev; pem_last_consumed = p.consumed;
+	snprintf(o->txt, sizeof o->txt, "events=%d payload=%zu consumed=%zu", p.nev, p.npay, p.consumed);
 }
 
 /* ------------------------------------------------------------------ */
@@ -305,6 +320,48 @@ build_pool(vf_rng *r, int nmut)
 	}
 	for (i = 0; i < sizeof certs / sizeof certs[0]; i ++) mutate_and_add(1, certs[i].p, certs[i].l, NULL, 0, NULL, certs[i].n, r, nmut);
 	for (i = 0; i < sizeof keys / sizeof keys[0]; i ++) mutate_and_add(2, keys[i].p, keys[i].l, NULL, 0, NULL, keys[i].n, r, nmut);
+	/* the same keys as PKCS#8 (written by the library's own encoders): another outer structure for the same decoder */
+	tp_fixtures();
+	for (i = 0; i < sizeof keys / sizeof keys[0]; i ++) {
+		char lab[60];
+		if (i == 0 || i == 3) {
+			/* RSAPrivateKey ::= SEQUENCE { version, n, e, d, p, q, dp, dq, iq }: n, e and d are taken from the fixture bytes */
+			const tp_skey *sk = i == 0 ? &tp_fx.srv_rsa : &tp_fx.weak_rsa;     /* keys[0], keys[3] */
+			const unsigned char *q = keys[i].p, *iv[4]; size_t il[4], k;
+			br_rsa_public_key pk;
+			q += 1 + (q[1] & 0x80 ? 1 + (q[1] & 0x7F) : 1);
+			for (k = 0; k < 4; k ++) {
+				size_t ln = q[1], h = 2;
+				if (ln & 0x80) { size_t nb = ln & 0x7F, j; ln = 0; for (j = 0; j < nb; j ++) ln = (ln << 8) | q[2 + j]; h = 2 + nb; }
+				iv[k] = q + h; il[k] = ln; q += h + ln;
+			}
+			pk.n = (unsigned char *)iv[1]; pk.nlen = il[1]; pk.e = (unsigned char *)iv[2]; pk.elen = il[2];
+			while (pk.nlen > 0 && pk.n[0] == 0) { pk.n ++; pk.nlen --; }
+			l = br_encode_rsa_pkcs8_der(NULL, &sk->rsa, &pk, iv[3], il[3]);
+			if (l == 0 || l > sizeof buf) { fprintf(stderr, "HARNESS_ASSERT pkcs8-rsa-encode\n"); exit(3); }
+			br_encode_rsa_pkcs8_der(buf, &sk->rsa, &pk, iv[3], il[3]);
+			snprintf(lab, sizeof lab, "%s-pkcs8", keys[i].n);
+			mutate_and_add(2, buf, l, NULL, 0, NULL, lab, r, nmut);
+			vf_stat("pool_skey_pkcs8", 1);
+		} else {
+			const tp_skey *sk = i == 1 ? &tp_fx.srv_ecec : &tp_fx.srv_ec384;    /* keys[1], keys[2] */
+			unsigned char kb[BR_EC_KBUF_PUB_MAX_SIZE];
+			br_ec_public_key pk;
+			int wp;
+			if (br_ec_compute_pub(br_ec_get_default(), &pk, kb, &sk->ec) == 0) { fprintf(stderr, "HARNESS_ASSERT ec-compute-pub\n"); exit(3); }
+			for (wp = 0; wp < 2; wp ++) {
+				l = br_encode_ec_pkcs8_der(NULL, &sk->ec, wp ? &pk : NULL);
+				if (l == 0 || l > sizeof buf) { fprintf(stderr, "HARNESS_ASSERT pkcs8-ec-encode\n"); exit(3); }
+				br_encode_ec_pkcs8_der(buf, &sk->ec, wp ? &pk : NULL);
+				snprintf(lab, sizeof lab, "%s-pkcs8-%s", keys[i].n, wp ? "pub" : "nopub");
+				mutate_and_add(2, buf, l, NULL, 0, NULL, lab, r, nmut);
+				vf_stat("pool_skey_pkcs8", 1);
+			}
+			l = br_encode_ec_raw_der(buf, &sk->ec, NULL);
+			snprintf(lab, sizeof lab, "%s-raw-nopub", keys[i].n);
+			mutate_and_add(2, buf, l, NULL, 0, NULL, lab, r, nmut / 2);
+		}
+	}
 	/* test/x509: certificates for validator + decoder, keys if any */
 	snprintf(dir, sizeof dir, "%s/test/x509", repo);
 	d = opendir(dir);
@@ -392,6 +449,28 @@ mode_dec(long long seed, int worker, int nworkers, int nmut, int nrand, int max_
 		run_consumer(in, 0, 0, &r2, &ref);
 		vf_stat("inputs", 1);
 		vf_stat(ref.txt[0] && (strstr(ref.txt, "err=0") || strstr(ref.txt, "end_chain=0")) ? "inputs_accepted" : "inputs_other", 1);
+		if (in->consumer == 2 && strstr(in->label, "pkcs8")) vf_stat(strstr(ref.txt, "err=0") ? "inputs_skey_pkcs8_decoded" : "inputs_skey_pkcs8_other", 1);
+		if (in->consumer == 4) {
+			/* the same text once more without a destination for the decoded data: events, names and consumed byte
+			   counts must be those of the run with a destination */
+			uint64_t evh = pem_last_evh; int nev = pem_last_nev, kd; size_t cons = pem_last_consumed;
+			for (pem_nodest = 1; pem_nodest <= 2; pem_nodest ++) {
+				for (kd = 0; kd <= 3; kd += (kd == 0 ? 2 : 1)) {
+					run_consumer(in, kd, 0, &r2, &o);
+					vf_stat("cmp_pem_no_destination", 1);
+					if (pem_last_evh != evh || pem_last_nev != nev || pem_last_consumed != cons) {
+						snprintf(what, sizeof what, "pem_decoder without destination (%s, partition kind %d): events=%d consumed=%zu; with destination: events=%d consumed=%zu",
+							pem_nodest == 1 ? "setdest(0)" : "setdest not called", kd, pem_last_nev, pem_last_consumed, nev, cons);
+						TP_VIOL("chunking:pem_decoder:no-destination", what);
+						bad = 1;
+						break;
+					}
+				}
+			}
+			pem_nodest = 0;
+			vf_stat("pem_inputs_without_destination", 1);
+			vf_stat("pem_events_compared", nev);
+		}
 		for (sp = 1; sp < in->len && !bad; sp ++) {
 			run_consumer(in, 1, sp, &r2, &o);
 			vf_stat("runs_two_chunk", 1);
